@@ -218,7 +218,11 @@ def exists(lo, hi, f):
         return Or(*r) if r else False
     st = V.cur()
     k = _z3.Int(st.fresh_name('q'))
-    body = f(V.mk(k))
+    _INQ[0] += 1
+    try:
+        body = f(V.mk(k))
+    finally:
+        _INQ[0] -= 1
     return V.mk(_z3.Exists([k], _z3.And(k >= V.zint(lo), k < V.zint(hi), V.zbool(body))))
 
 
@@ -240,7 +244,7 @@ def map_has(m, k):
 def map_get(m, k):
     if V is not None and isinstance(m, V.SMap):
         return m.get(k)
-    return m[k]
+    return m.get(k, 0)      # total: unspecified (0) outside the domain
 
 
 # ----------------------------------------------------------------------------- arithmetic helpers
